@@ -413,6 +413,17 @@ def explore_engine(ctx, props, n_prim, n_op, n_intr=0, p_template=0.15, op_switc
             elif case["failing"]:
                 case["max_errors"] = rng.choice([None, None, 2, len(case["failing"])])
             intr = rng.randint(1, max(1, case["n"]))
+            if (i - n_prim - n_op) % 6 == 5:
+                # every sixth interrupted run (chosen by index, drawn from a stream of its own): the interrupt arrives while
+                # every worker is inside a call, one of which then FAILS with the error bound already exceeded
+                r2 = random.Random(ctx.seed * 31 + i)
+                w = r2.choice([2, 2, 3])
+                n = w + r2.choice([0, 1, 3])
+                case = {"n": n, "edges": [(a, n - 1) for a in range(r2.choice([0, 1, w]))] if n > w else [], "nodes": list(range(n)),
+                        "workers": w, "max_errors": 0, "scheduler": r2.choice(["default", "random", "cheap"]),
+                        "failing": {r2.randrange(w): "ValueError"}}
+                intr = w
+                stats["interrupt_then_failure_cases"] = stats.get("interrupt_then_failure_cases", 0) + 1
         seed = rng.randrange(1 << 30)
         osp = rng.choice(op_switch)
         r = run_case(case, seed, mode=mode, interrupt_at=intr, op_switch_p=osp)
